@@ -3,7 +3,8 @@
 // One case = one history of mutations (typed Append / ApplyFetch with
 // checkpoint and epoch point / TruncateFrom / TrimPrefixThroughLimit /
 // StoreCheckpoint, compatibility appends through the commit coordinator,
-// multi-channel StoreAppendBatch, compat Truncate, reopen) run on a Pebble
+// multi-channel StoreAppendBatch, compat Truncate, the paged compat
+// DiscardForRestore, reopen) run on a Pebble
 // database that lives on Pebble's crash-simulating in-memory file system
 // (vfs.NewCrashableMem, injected through the verif-only seam
 // engine.VerifOpenFS).  An errorfs hook in front of every file-system write
@@ -39,17 +40,30 @@ type input struct {
 	Ops       []msgh.Op `json:"ops"`
 	CrashSeed uint64    `json:"crash_seed"`
 	Budget    int       `json:"budget"` // sampled in-flight crash points (boundary points are always taken)
+	// QuietUntil: no crash clones before this op index (the > 1024-row script: the
+	// interesting window is the paged discard, earlier images would be huge).
+	QuietUntil int `json:"quiet_until,omitempty"`
 }
 
 func gen(r *rand.Rand, tier string, i int) input {
-	p := msgh.Profile{MinOps: 6, MaxOps: 22, Collide: 0.1, MutWeight: 88, BatchRate: 0.15, SaneCheckpoints: true}
+	p := msgh.Profile{MinOps: 6, MaxOps: 22, Collide: 0.1, MutWeight: 88, BatchRate: 0.15, SaneCheckpoints: true,
+		DiscardRate: 0.07, BigDiscard: 0.03}
 	budget := 14
 	if tier == "thorough" {
 		p.MaxOps = 50
 		budget = 40
 	}
 	h := msgh.GenHistory(r, p)
-	return input{Ops: h.Ops, CrashSeed: r.Uint64(), Budget: budget}
+	in := input{Ops: h.Ops, CrashSeed: r.Uint64(), Budget: budget}
+	if len(h.Ops) > 0 && len(h.Ops[0].Recs) >= 300 {
+		for i, op := range h.Ops {
+			if op.K == "discard" {
+				in.QuietUntil = i
+				break
+			}
+		}
+	}
+	return in
 }
 
 type label struct {
@@ -115,15 +129,39 @@ func run(in input) vh.Result {
 	fs := errorfs.Wrap(mem, errorfs.InjectorFunc(rc.hook))
 	e := msgh.NewEnvOnFS(fs)
 	e.NoDumps = true
-	rc.armed.Store(true)
+	// DiscardForRestore polls its context between two of its batches (before every
+	// page read): a process-kill image (100 %) and a power-loss image (0 %) are
+	// taken at EVERY such poll, so each state between pages / before the terminal
+	// partition delete is observed.
+	// The context is polled far more often than between batches (every few rows of a
+	// page read): a pair of clones is taken only when the file system was written to
+	// since the previous pair, i.e. once per committed page.
+	polls, lastEvents := 0, -1
+	e.Poll = func() {
+		if !rc.armed.Load() || !rc.inflight.Load() {
+			return
+		}
+		rc.mu.Lock()
+		defer rc.mu.Unlock()
+		if polls < 40 && rc.events != lastEvents {
+			lastEvents = rc.events
+			polls++
+			rc.take(100)
+			rc.take(0)
+		}
+	}
+	rc.armed.Store(in.QuietUntil == 0)
 	steps := make([]msgh.Step, len(in.Ops))
 	for i, op := range in.Ops {
+		if i == in.QuietUntil {
+			rc.armed.Store(true)
+		}
 		rc.inflight.Store(true)
 		out, dumps := e.Exec(op)
 		rc.mu.Lock()
 		rc.done.Add(1)
 		rc.inflight.Store(false)
-		if msgh.IsMutation(op.K) || op.K == "reopen" {
+		if rc.armed.Load() && (msgh.IsMutation(op.K) || op.K == "reopen") {
 			rc.take(0) // the mutation has returned: it must survive a power loss now
 		}
 		rc.mu.Unlock()
@@ -200,9 +238,31 @@ func run(in input) vh.Result {
 	return vh.Result{
 		Coq: vh.App("C09Case", msgh.CoqCase("C07Case", hin, steps, finalKV), coqCr),
 		Obs: map[string]any{"steps": steps, "crashes": crashes, "fs_write_events": rc.events, "event_kinds": rc.kinds, "pebble_unopenable_partial_dir_clones": unrecoverable},
-		Class: fmt.Sprintf("ops<%d0,crashpts=%s,inflight=%s,states=%s", len(in.Ops)/10+1,
-			bucket(len(rc.snaps)), bucket(inflightPts), bucket(len(crashes))),
+		Class: fmt.Sprintf("ops<%d0,crashpts=%s,inflight=%s,states=%s%s", len(in.Ops)/10+1,
+			bucket(len(rc.snaps)), bucket(inflightPts), bucket(len(crashes)), discardClass(in, polls)),
 		Trivial: len(rc.snaps) == 0,
+	}
+}
+
+// discardClass: does the history discard a channel (paged DiscardForRestore), how
+// many between-batch polls were cloned, and is it the > 1024-row (two pages) script?
+func discardClass(in input, polls int) string {
+	n, rows := 0, 0
+	for _, op := range in.Ops {
+		if op.K == "discard" {
+			n++
+		}
+		if op.K == "append" && len(op.Recs) > rows {
+			rows = len(op.Recs)
+		}
+	}
+	switch {
+	case n == 0:
+		return ""
+	case rows >= 300:
+		return fmt.Sprintf(",discard=multipage,polls=%s", bucket(polls))
+	default:
+		return fmt.Sprintf(",discard=%s,polls=%s", bucket(n), bucket(polls))
 	}
 }
 
